@@ -17,6 +17,7 @@ cd "$wt"
 prop=$(echo "$name" | cut -d- -f1)
 sed -i "s#/tmp/seed4-$prop#$wt#g; s#/tmp/seed3-$prop#$wt#g; s#/tmp/seed2-$prop#$wt#g; s#/tmp/seed-$prop#$wt#g" SEED/*.sh SEED/*.rs 2>/dev/null
 export CARGO_TARGET_DIR="$wt/target" CARGO_NET_OFFLINE=true
+mkdir -p "$wt/target"
 bash "SEED/$demo"; d0=$?
 git apply "SEED/$patch"; ap=$?
 cargo test --workspace --no-fail-fast --offline > "$wt/suite.log" 2>&1; st=$?
